@@ -13,3 +13,5 @@ CONSTANTS
   CollOf <- CollOf3
   JoinLifts = TRUE
   StartAllFirst = TRUE
+  PChanOf <- PChanSame
+  InitRaises = TRUE
